@@ -8,11 +8,10 @@ two coincide and that, there, the whole builder behaves identically under both:
 
 * `rawEqual_intLike` — on integers and infinities (any precisions) `rawNumberEqual` IS exact
   comparison: the decimal text is never consulted;
-* `rawEqual_not_bothFractional` — more generally for numbers in normal form (odd mantissa: what
-  the wire codec delivers) unless both are non-integers of the same sign;
-* `TextExactOn P` — "on numbers satisfying `P` the code's equality is exact" — as a hypothesis that
-  other classes of inputs can instantiate (e.g. one fixed precision, given that math/big's shortest
-  decimal text is injective at a fixed precision: `samePrec_textExact`);
+* `TextExactOn P` — "on numbers satisfying `P` the code's equality is exact" — the form in which the
+  congruence lemmas take it, so that other classes of inputs can instantiate it (one fixed precision
+  would need "math/big's shortest decimal text is injective at a fixed precision", which is not proved
+  here; `intLike_textExact` is the instance that is);
 * `step_congr` / `run_congr` / `newValue_congr` / `refine_congr` — two oracles that agree on `P`
   give the same outcome (value, panic, everything) on builders and calls whose numbers satisfy `P`;
   `step_numsOk` / `run_numsOk` — accepted calls keep the numbers of the builder inside `P`.
